@@ -85,7 +85,17 @@ func queryShape(q *Query) string {
 func (c01) Exec(seed int64, i int, tier string) Record {
 	r := CaseRng(seed, "C01", i)
 	o := DefaultOpts()
+	switch i % 8 {
+	case 3:
+		// nested filters: existence tests over value-group paths, `$`-rooted operands inside them
+		o.VgExistPct, o.RootBias = 70, 60
+	case 5:
+		o.ErrBias = 3
+	}
 	doc, p := GenCase(r, o)
+	if i%8 == 3 && r.Chance(60) {
+		doc, p = genNestedRootCase(r)
+	}
 	text := Render(p, r)
 	jn := r.Chance(40)
 	if jn {
@@ -141,4 +151,58 @@ func (c01) Exec(seed int64, i int, tier string) Record {
 		rec.Key = shapeKey(p) + "/" + fmt.Sprint(len(out.Vals) > 1) + fmt.Sprint(jn)
 	}
 	return rec
+}
+
+// genNestedRootCase: a filter whose operand path contains a filter with a `$`-rooted operand,
+// over records whose own fields differ from the root's (so that evaluating the inner `$` against
+// anything but the document root changes the selection).
+func genNestedRootCase(r *Rng) (interface{}, *Path) {
+	num := func() interface{} { return float64(r.Range(0, 3)) }
+	rec := func() interface{} {
+		m := map[string]interface{}{}
+		for _, k := range []string{"c", "d"} {
+			if r.Chance(80) {
+				m[k] = num()
+			}
+		}
+		return m
+	}
+	group := func() interface{} {
+		n := r.Range(0, 3)
+		items := make([]interface{}, n)
+		for i := range items {
+			items[i] = rec()
+		}
+		g := map[string]interface{}{"b": items}
+		if r.Chance(60) {
+			g["d"] = num() // a decoy: the member has its own `d`
+		}
+		return g
+	}
+	n := r.Range(1, 4)
+	groups := make([]interface{}, n)
+	for i := range groups {
+		groups[i] = group()
+	}
+	doc := map[string]interface{}{"a": groups}
+	if r.Chance(85) {
+		doc["d"] = num()
+	}
+	inner := &Query{Kind: QCmp, Op: r.Weighted([]int{40, 20, 10, 10, 10, 10}),
+		L: &Operand{Path: &Path{Head: HeadCur, Steps: []*Step{{Kind: StChild, Key: r.Pick([]string{"c", "d"})}}}},
+		R: &Operand{Path: &Path{Head: HeadRoot, Steps: []*Step{{Kind: StChild, Key: "d"}}}}}
+	if r.Chance(40) {
+		inner.L, inner.R = inner.R, inner.L
+	}
+	opnd := &Path{Head: HeadCur, Steps: []*Step{{Kind: StChild, Key: "b"}, {Kind: StFilter, Q: inner}}}
+	outer := &Query{Kind: QExist, Neg: r.Chance(25), P: opnd}
+	var q *Query = outer
+	if r.Chance(30) {
+		q = &Query{Kind: QAnd, A: outer, B: &Query{Kind: QExist, P: &Path{Head: HeadCur, Steps: []*Step{{Kind: StChild, Key: "b"}}}}}
+	}
+	p := &Path{Head: HeadRoot, Steps: []*Step{{Kind: StChild, Key: "a"}, {Kind: StFilter, Q: q}}}
+	if r.Chance(30) {
+		p.Steps = append(p.Steps, &Step{Kind: StChild, Key: "d"})
+	}
+	return doc, p
 }
